@@ -3,7 +3,7 @@
 use crate::codec::{dec_value, enc_value};
 use crate::tlc::{Run, Tlc};
 use crate::util::{tool_error, Ctx};
-use crate::xml::{esc, item_definitions_xml, DMN_NS};
+use crate::xml::{esc, item_definitions_xml_in_order, DMN_NS};
 use dmntk_feel::context::FeelContext;
 use dmntk_feel::values::Value;
 use dmntk_feel::Name;
@@ -27,8 +27,13 @@ fn literal(v: &Value) -> Option<String> {
   })
 }
 
-fn model_xml(t: &J, values: &[Value], direct: bool) -> (String, Vec<bool>) {
-  let (defs, top) = item_definitions_xml(t);
+/// `variant` spells the same item definitions differently: bit 0 - written top-down (every reference points forward in
+/// the document), bit 1 - the allowed values carry the expressionLanguage attribute with the FEEL URI of DMN 1.2.
+fn model_xml(t: &J, values: &[Value], direct: bool, variant: u64) -> (String, Vec<bool>) {
+  let (mut defs, top) = item_definitions_xml_in_order(t, variant & 1 == 1);
+  if variant & 2 == 2 {
+    defs = defs.replace("<allowedValues>", "<allowedValues expressionLanguage=\"https://www.omg.org/spec/DMN/20180521/FEEL/\">");
+  }
   let type_ref = if direct { t["ty"].as_str().unwrap().to_string() } else { top };
   let mut s = format!("<?xml version=\"1.0\" encoding=\"UTF-8\"?>\n<definitions xmlns=\"{}\" namespace=\"ns\" name=\"m\" id=\"M\">{}", DMN_NS, defs);
   s.push_str(&format!("<inputData name=\"x\" id=\"i_x\"><variable name=\"x\" typeRef=\"{}\"/></inputData>", type_ref));
@@ -52,10 +57,14 @@ fn model_xml(t: &J, values: &[Value], direct: bool) -> (String, Vec<bool>) {
 }
 
 pub fn run_case(case: &J, direct: bool) -> J {
+  run_variant(case, direct, 0)
+}
+
+pub fn run_variant(case: &J, direct: bool, variant: u64) -> J {
   let t = &case["ty"];
   let vals_j: Vec<J> = case["vals"].as_array().cloned().unwrap_or_default();
   let values: Vec<Value> = vals_j.iter().map(dec_value).collect();
-  let (xml, has) = model_xml(t, &values, direct);
+  let (xml, has) = model_xml(t, &values, direct, variant);
   crate::util::QUIET.with(|q| q.set(true));
   let r = std::panic::catch_unwind(std::panic::AssertUnwindSafe(|| {
     let defs = dmntk_model::parse(&xml).map_err(|e| format!("parse: {}", e))?;
@@ -80,9 +89,9 @@ pub fn run_case(case: &J, direct: bool) -> J {
   // the values as the harness encodes them (what "unchanged" is compared with)
   let venc: Vec<J> = values.iter().map(enc_value).collect();
   match r {
-    Ok(Ok((inp, out, bkm))) => json!({"ty": t, "vals": venc, "direct": direct, "built": "ok", "inp": inp, "out": out, "bkm": bkm}),
-    Ok(Err(e)) => json!({"ty": t, "vals": venc, "direct": direct, "built": e, "inp": [], "out": [], "bkm": []}),
-    Err(_) => json!({"ty": t, "vals": venc, "direct": direct, "built": "panic", "inp": [], "out": [], "bkm": []}),
+    Ok(Ok((inp, out, bkm))) => json!({"ty": t, "vals": venc, "direct": direct, "variant": variant, "built": "ok", "inp": inp, "out": out, "bkm": bkm}),
+    Ok(Err(e)) => json!({"ty": t, "vals": venc, "direct": direct, "variant": variant, "built": e, "inp": [], "out": [], "bkm": []}),
+    Err(_) => json!({"ty": t, "vals": venc, "direct": direct, "variant": variant, "built": "panic", "inp": [], "out": [], "bkm": []}),
   }
 }
 
@@ -101,7 +110,7 @@ pub fn check(mut ctx: Ctx, replay: Option<J>) -> ! {
   let mut recs = vec![];
   if let Some(r) = &replay {
     let c = &r["case"];
-    recs.push(run_case(&json!({"ty": c["ty"], "vals": c["vals_spec"]}), c["direct"].as_bool().unwrap_or(false)));
+    recs.push(run_variant(&json!({"ty": c["ty"], "vals": c["vals_spec"]}), c["direct"].as_bool().unwrap_or(false), c["variant"].as_u64().unwrap_or(0)));
   } else {
     let gen = tlc.run(Run::new("Gen_C11", if quick { "Gen_C11.cfg" } else { "Gen_C11Deep.cfg" }).timeout(1200));
     if !gen.ok {
@@ -111,8 +120,12 @@ pub fn check(mut ctx: Ctx, replay: Option<J>) -> ! {
     if cases.len() < 40 {
       tool_error("too few item definition trees");
     }
-    for c in &cases {
+    for (k, c) in cases.iter().enumerate() {
       recs.push(run_case(c, false));
+      // the same definitions spelled differently (order of the definitions, expressionLanguage of the allowed values)
+      if c["ty"]["d"] != "simple" || c["ty"]["av"] != "none" {
+        recs.push(run_variant(c, false, 1 + (k as u64 % 3)));
+      }
       if c["ty"]["d"] == "simple" && c["ty"]["av"] == "none" {
         recs.push(run_case(c, true)); // the built-in type name used directly as typeRef
       }
@@ -141,7 +154,7 @@ pub fn check(mut ctx: Ctx, replay: Option<J>) -> ! {
       }
     }
     let sig = format!("{}:{}{}", if why.contains("input") { "input" } else if why.contains("result") { "output" } else { "load" }, shape(&r["ty"]), if r["direct"] == true { ":direct" } else { "" });
-    ctx.reject(&[sig], json!({"ty": r["ty"], "vals_spec": r["vals"], "direct": r["direct"], "inp": r["inp"], "out": r["out"]}), &format!("{} : type {}{}", why, shape(&r["ty"]), detail).chars().take(700).collect::<String>());
+    ctx.reject(&[sig], json!({"ty": r["ty"], "vals_spec": r["vals"], "direct": r["direct"], "variant": r["variant"], "inp": r["inp"], "out": r["out"]}), &format!("{} : type {}{}", why, shape(&r["ty"]), detail).chars().take(700).collect::<String>());
   }
   let evals: u64 = recs.iter().map(|r| 2 * r["vals"].as_array().map(|a| a.len() as u64).unwrap_or(0)).sum();
   ctx.cov("type_trees", json!(recs.len()));
